@@ -143,9 +143,9 @@ fn run_as(cfg: &Cfg, c08: bool) -> i32 {
     let thorough = cfg.thorough();
     let ns: Vec<usize> = if thorough { vec![0, 1, 2, 3, 5] } else { vec![0, 2] };
     let kinds: Vec<FaultKind> = if thorough {
-        vec![FaultKind::RpcError, FaultKind::WarningThenOk, FaultKind::NoPositive, FaultKind::NotXml, FaultKind::Truncated, FaultKind::WrongMessageId, FaultKind::CloseBefore, FaultKind::CloseAfter, FaultKind::StallThenClose, FaultKind::DelayedRpcError, FaultKind::ErrorThenOk, FaultKind::ErrorWarningThenOk, FaultKind::ForeignError, FaultKind::ErrorReplyThenSecondPositiveReply, FaultKind::ErrorRootThenPositiveRootSameId, FaultKind::ErrorRootThenPositiveRootOtherId, FaultKind::NotUtf8InComment, FaultKind::NotUtf8InWarningText, FaultKind::PositiveThenRpcError]
+        vec![FaultKind::RpcError, FaultKind::WarningThenOk, FaultKind::NoPositive, FaultKind::NotXml, FaultKind::Truncated, FaultKind::WrongMessageId, FaultKind::CloseBefore, FaultKind::CloseAfter, FaultKind::StallThenClose, FaultKind::DelayedRpcError, FaultKind::ErrorThenOk, FaultKind::ErrorWarningThenOk, FaultKind::ForeignError, FaultKind::ErrorReplyThenSecondPositiveReply, FaultKind::ErrorRootThenPositiveRootSameId, FaultKind::ErrorRootThenPositiveRootOtherId, FaultKind::NotUtf8InComment, FaultKind::NotUtf8InWarningText, FaultKind::PositiveThenRpcError, FaultKind::NoDelimiterThenClose]
     } else {
-        vec![FaultKind::RpcError, FaultKind::NoPositive, FaultKind::WrongMessageId, FaultKind::CloseBefore, FaultKind::DelayedRpcError, FaultKind::ErrorThenOk, FaultKind::ErrorWarningThenOk, FaultKind::ForeignError, FaultKind::ErrorReplyThenSecondPositiveReply, FaultKind::ErrorRootThenPositiveRootSameId, FaultKind::ErrorRootThenPositiveRootOtherId, FaultKind::NotUtf8InComment, FaultKind::NotUtf8InWarningText, FaultKind::PositiveThenRpcError]
+        vec![FaultKind::RpcError, FaultKind::NoPositive, FaultKind::WrongMessageId, FaultKind::CloseBefore, FaultKind::DelayedRpcError, FaultKind::ErrorThenOk, FaultKind::ErrorWarningThenOk, FaultKind::ForeignError, FaultKind::ErrorReplyThenSecondPositiveReply, FaultKind::ErrorRootThenPositiveRootSameId, FaultKind::ErrorRootThenPositiveRootOtherId, FaultKind::NotUtf8InComment, FaultKind::NotUtf8InWarningText, FaultKind::PositiveThenRpcError, FaultKind::NoDelimiterThenClose]
     };
     let mut cases: Vec<Case> = Vec::new();
     for &n in &ns {
